@@ -200,7 +200,11 @@ def listing(body, extra_state=()):
         out = []
         cur = bi
         pending_hdr = None
+        first = True
         while cur is not None and cur != stop:
+            if cur == loop_hdr and not first:
+                return out        # back at the header of the enclosing loop: end of this iteration (`continue`)
+            first = False
             if cur in headers and cur != loop_hdr:
                 pending_hdr = cur
             out += block_stmts(cur)
